@@ -275,3 +275,7 @@ def run(ctx):
                         bad.append(f"{fi.qualname}: `{U(st)[:60]}`")
     ctx.check(not bad, "C07.e", "edge-caches-immutable", "no subscript store / augmented assignment / in-place method on an edge array",
               "edge arrays shared between binning copies are modified in place: " + "; ".join(bad[:3]), bn.relpath)
+
+    # cache coherence of the derived edge representations (shared with C04.a)
+    from rules import c04
+    c04.check_cache_coherence(ctx, "C07.d", m)
